@@ -244,6 +244,17 @@ func shrinkTree(files []WFile, mainName string, test tester) []WFile {
 				files[i].Data = bytePass(files[i].Data, func(b []byte) bool { return test(with(b)) })
 			}
 		}
+		// files that are no longer referenced can go now
+		for i := 0; i < len(files); i++ {
+			if files[i].Name == mainName {
+				continue
+			}
+			cand := append(cloneFiles(files[:i]), files[i+1:]...)
+			if test(cand) {
+				files = cand
+				i--
+			}
+		}
 		if renderTree(files, mainName) == before {
 			break
 		}
